@@ -199,7 +199,7 @@ func main() {
 		}
 	}
 	// Fill / Repeat for every length (the exponential copy crosses several doublings)
-	for n := 0; n <= ev.Pick(r, 1100, 4200); n++ {
+	for n := 0; n <= ev.Pick(r, 9000, 70000); n += 1 + n/3000 {
 		for _, sp := range []int{0, 3} {
 			s, b := mk(n, sp, 100)
 			e.Input(n > 1)
